@@ -6,15 +6,15 @@ Import ListNotations.
 Open Scope Z_scope.
 
 Lemma sender_window pn la largest :
-  0 <= pn < 2 ^ 62 -> -1 <= la -> la <= largest <= pn -> pn - la <= 2 ^ 31 ->
+  0 <= pn < 2 ^ 62 -> -1 <= la -> la <= largest <= pn + reorder_tolerance (lenForHeader pn la) -> pn - la <= 2 ^ 31 ->
   let len := lenForHeader pn la in
   largest + 1 - 2 ^ (len * 8) / 2 < pn <= largest + 1 + 2 ^ (len * 8) / 2.
 Proof.
-  intros Hpn Hla Hlg Hout len. subst len.
+  intros Hpn Hla Hlg Hout len. subst len. unfold reorder_tolerance in Hlg. revert Hlg.
   destruct (lenForHeader_cases pn la Hla) as [[Hn ->]|[[Hn ->]|[Hn ->]]];
     [ change (2 ^ (2 * 8) / 2) with 32768 | change (2 ^ (3 * 8) / 2) with 8388608
     | change (2 ^ (4 * 8) / 2) with 2147483648 ];
-    change (2 ^ 15) with 32768 in *; change (2 ^ 23) with 8388608 in *; change (2 ^ 31) with 2147483648 in *; lia.
+    change (2 ^ 15) with 32768 in *; change (2 ^ 23) with 8388608 in *; change (2 ^ 31) with 2147483648 in *; intros Hlg; lia.
 Qed.
 
 Lemma packet_payload_length ack padding frames :
@@ -31,7 +31,7 @@ Section Proofs.
   Definition pack_unpack_statement : Prop :=
     forall (long : bool) (tcode kp : Z) (mid : list Z) (pn la largest : Z) (ack frames : list Z) (extra : nat),
       (if long then 0 <= tcode <= 3 else kp = 0 \/ kp = 1) ->
-      0 <= pn < 2 ^ 62 -> -1 <= la -> la <= largest <= pn -> pn - la <= 2 ^ 31 ->
+      0 <= pn < 2 ^ 62 -> -1 <= la -> la <= largest <= pn + reorder_tolerance (lenForHeader pn la) -> pn - la <= 2 ^ 31 ->
       ack ++ frames <> [] ->
       let pnLen := lenForHeader pn la in
       let padding := pad_len (Z.to_nat pnLen) (length ack + length frames) extra in
